@@ -104,7 +104,7 @@ OFFERS = ["none", "held", "held-noems", "held-noetm", "ticket-flip-first",
           "ticket-flip-mid", "ticket-flip-last", "unknown-id", "foreign",
           "held-refreshed-clock", "held-other-hash", "held-same-hash",
           "held-copy", "held-no-alpn", "held-other-alpn", "held-other-sni",
-          "held-no-sni", "held-renamed-sni"]
+          "held-no-sni", "held-renamed-sni", "held-nocert"]
 # suite the client offers instead of the session's: (other PRF hash / other
 # suite, same hash) per original cipher name
 OTHER = {"aes128gcm": ("aes256gcm", "chacha20-poly1305"),
@@ -220,6 +220,11 @@ def apply_offer(st, offer):
         sess.serverName = "other.example"
         cset["_sni"] = "other.example"
         inconsistent = True
+    elif offer == "held-nocert":
+        # the session is offered by a client that has no certificate (any
+        # more): resumed, the original identity stands; declined, the full
+        # handshake is an unauthenticated one
+        cset["_nocert"] = True
     elif offer == "held-refreshed-clock":
         # a client whose notion of the ticket's receipt time is wrong keeps
         # offering it after the lifetime
@@ -288,6 +293,8 @@ def do_connect(st, offer, seed):
                 sc.ckw.pop("serverName", None)
             else:
                 sc.ckw["serverName"] = v
+        elif k == "_nocert":
+            sc.client_cred = None
         else:
             sc.cset[k] = v
     if sess is not None and st.meta is not None and \
@@ -353,6 +360,7 @@ def do_connect(st, offer, seed):
         rec["view_c"] = W.view(pair.c, exporter=False)
         rec["view_s"] = W.view(pair.s, exporter=False)
         rec["want_alpn"] = want_alpn
+        rec["client_has_cert"] = bool(sc.client_cred)
         # both ends of every completed connection (resumed or not) agree,
         # including exported keying material
         full_c, full_s = W.view(pair.c), W.view(pair.s)
@@ -530,6 +538,11 @@ def step(st, ev, seed):
                                                    rec["out"]))
         if both and not rec.get("data_ok"):
             fails.append("data exchange failed after fallback")
+        if both and not rec.get("client_has_cert", True) and \
+                rec["view_s"]["clientChain"]:
+            fails.append("full handshake without a client certificate, "
+                         "server attributes %r to the client" % (
+                             rec["view_s"]["clientChain"],))
     if both:
         if rec["resumed"] and mech["version"] < (3, 4):
             # resumed connection: the held session (and its model) stay
